@@ -78,14 +78,14 @@ def run(ctx):
         stages.append(("general", ["-seed", seed, "-n", "700", "-eng", ["pebble", "mem"][ctx.seed % 2],
                                    "-policy", ["compact", "local"][(ctx.seed // 2) % 2]], 3))
     else:
-        stages.append(("general", ["-seed", seed, "-n", "100000", "-eng", "pebble", "-policy", "compact"], 5))
-        stages.append(("general-mem", ["-seed", str(ctx.seed + 500), "-n", "3000", "-eng", "mem", "-policy", "local"], 3))
+        stages.append(("general", ["-seed", seed, "-n", "2500", "-eng", "pebble", "-policy", "compact"], 5))
+        stages.append(("general-mem", ["-seed", str(ctx.seed + 500), "-n", "1500", "-eng", "mem", "-policy", "local"], 3))
     for name, args in ISOLATE:
         stages.append((name, ["-seed", seed] + args, 2))
 
     def driver_stage(st):
         name, args, parts = st
-        summ, files = D.drive(ctx, zr, "inputsim", name, args, parts, timeout=3000)
+        summ, files = D.drive(ctx, zr, "inputsim", name, args, parts)
         return st, summ, files
 
     res = V.parallel(lambda x: model_stage(x) if x == "model" else driver_stage(x), ["model"] + stages, n=5)
